@@ -21,12 +21,12 @@ TRUSTED = ["Coq 8.16.1 kernel + vm_compute + primitive floats",
            "harness/c08.py, harness/coqgen.py"]
 RULE = ("point sets: continuous (several scales), integer grids, dyadic grids (points exactly on midpoints), duplicated rows, "
         "constant columns; 1-4 columns, 1-150 rows; count_ubound in {0,1,2,3,5,8,20}; cutpoint_proportion_lbound in "
-        "{0,1e-9,.01,.1,.25,.5,.9,1,2}; then 2-6 fill/reset operations under ids build/a/b/c with and without reset (same / shifted "
+        "{0,1e-9,.01,.1,.25,.5,.9,1,2}; then 2-7 fill/reset(0) operations under ids build/a/b/c with and without reset (same / shifted "
         "distribution, the build data itself, subsets, empty samples, points exactly on the tree's split values); observables: "
         "the whole tree, leaves order, leaf_counts per id, kl_distance, to_plotly_dataframe rows, _distn_from_counts. "
         "Non-trivial: the tree has at least one split and at least one fill was executed; distinct by case content. "
         "Excluded (see notes/design_C08.md): NaN/inf/-0.0 coordinates, columns whose extreme values are adjacent doubles.")
-SHARD = 40
+SHARD = 25
 
 IDNAME = ["build", "a", "b", "c"]
 IDNUM = {k: i for i, k in enumerate(IDNAME)}
@@ -611,7 +611,7 @@ def gen_cases(ctx):
         st[key] = {}
     def bumpstat(key, v):
         st[key][str(v)] = st[key].get(str(v), 0) + 1
-    ncases = ctx.scale(400, 6000)
+    ncases = ctx.scale(320, 5000)
     # small hand-made boundary cases first
     hand = [
         {"cub": 1, "clb": 0.0, "m": 1, "data": [[0.0], [2.0], [4.0]]},               # a point exactly on the midpoint
